@@ -68,7 +68,7 @@ def main():
     chunks = [cases[i::nw] for i in range(nw)]
     from concurrent.futures import ThreadPoolExecutor
     with ThreadPoolExecutor(nw) as ex:
-        outs = list(ex.map(lambda kc: vf.impl("impl_trace.py", {"cases": kc[1], "duck": kc[0] == 0}, timeout=3000), list(enumerate(chunks))))
+        outs = list(ex.map(lambda kc: vf.impl("impl_trace.py", {"cases": kc[1], "duck": kc[0] == 0}, timeout=3000, bg=(kc[0] % 3 == 1)), list(enumerate(chunks))))
     res = [None] * len(cases)
     for w, o in enumerate(outs):
         for j, r in enumerate(o["results"]):
